@@ -24,7 +24,7 @@ def run(ctx):
         r = ctx.model_check("cert", "MC_QuorumCert", "MC_QuorumCert_list.cfg",
                             constants=dict(MaxN=ctx.pick(3, 4), MaxExtra=1), coverage=True,
                             timeout=ctx.pick(600, 1800))
-        ctx.check_coverage(r, ["AppendItem", "VerifyList", "DecodeGarbageList"], allow_zero=("AddPart", "VerifyPart", "VerifyProof", "NewPart", "DecodeGarbage(k, d)"))
+        ctx.check_coverage(r, ["AppendItem", "VerifyList", "DecodeGarbageList"], allow_zero=("AddPart", "VerifyPart", "VerifyProof", "NewPart", "Reverify", "DecodeGarbage(k, d)"))
         ctx.exhaustive = True
         # 2. decision table: every subset of valid signatures for n = 1..7 with <= 1 anomaly (8 kinds, 3 positions),
         #    with <= 2 anomalies for n <= 3/5, every ordering of the valid part for n <= 4/5, random constructions
